@@ -521,10 +521,18 @@ func checkSinkProvenance(p *Program, r *Report, gates map[*types.TypeName]bool) 
 							}
 							if t != nil {
 								if nn, ok := t.(*types.Named); ok && nn.Obj().Pkg() != nil && strings.HasPrefix(nn.Obj().Pkg().Path(), modulePath) {
-									return false // another safe / trusted value
+									if _, isIface := t.Underlying().(*types.Interface); !isIface {
+										return false // another safe / trusted value
+									}
 								}
 								if _, ok := t.Underlying().(*types.Interface); ok {
-									return false // flag.Value, embed.FS-like sources are handled at the call
+									if nt.Obj().Name() == "TrustedFS" {
+										// a file system behind an interface can be anything a client implements (fstest.MapFS with
+										// run-time contents); an unexported interface type is no gate: values are assignable to it
+										bad = append(bad, "parameter "+x.Name+" of interface type "+types.TypeString(t, shortQual)+" (any implementation a client supplies becomes the trusted file system; only the concrete embed.FS carries files fixed at build time)")
+										return false
+									}
+									return false // flag.Value-like sources are handled at the call
 								}
 								if tn, ok := t.(*types.Named); ok && tn.Obj().Pkg() != nil && (tn.Obj().Pkg().Path() == "embed" || tn.Obj().Pkg().Path() == "io/fs") {
 									return false
